@@ -20,7 +20,7 @@
 #define NVAL 2        // values of a multi-valued field
 #endif
 #ifndef REFCAP
-#define REFCAP 64
+#define REFCAP 40
 #endif
 // element counts: symbolic 0..max, or fixed by the instance (case split over the counts: -DC_NID=n etc., -1 = symbolic)
 #ifndef C_NID
@@ -37,6 +37,8 @@ static inline unsigned symCount(unsigned max, int fixed)
 extern "C" {
 // c20_models.c
 void vp_c20_string(QString *out, unsigned len, unsigned short c0, unsigned short c1, unsigned short c2);
+void vp_c20_list_push(void *qlist, void *node);            // append one pointer-sized node (pointer-typed store)
+void vp_c20_strlist_push(void *qstringlist, const QString *s);
 unsigned vp_hash_calls();                       // number of QCryptographicHash::result() calls so far
 unsigned vp_hash_alg(unsigned k);               // algorithm of the k-th call
 unsigned vp_hash_len(unsigned k);               // length of the octet string hashed by the k-th call
